@@ -275,3 +275,74 @@ def _random_case(r, alg):
         rows = r.randint(1, 6)
         return alg, [r.randint(-2, 3) for _ in range(n * rows)], tuple(rnd_iv(r, -2, 3, r.choice([1, 2, 5])) for _ in range(n))
     raise ValueError(alg)
+
+
+# ---------------------------------------------------------------- large arities (C16: scratch-array limits), no oracle
+
+
+def big_case(r: random.Random):
+    """In-contract calls with arities up to 40 and adversarial bounds for the algorithms with scratch arrays /
+    index arithmetic (alldifferent, gcc, no_sub_cycle, scc, element_*, relation, lexicographic_leq, count_eq)."""
+    alg = r.choice(["alldifferent", "alldifferent", "gcc", "gcc", "gcc", "no_sub_cycle", "scc", "element_iv",
+                    "element_liv", "element_lic", "relation", "lexicographic_leq", "count_eq", "exactly_eq", "max_eq",
+                    "min_eq", "affine_eq"])
+    n = r.choice([1, 2, 3, 5, 8, 13, 21, 30, 40])
+    if alg == "alldifferent":
+        lo = r.choice([-50, -3, 0, 1, 1000])
+        span = r.choice([1, n // 2 + 1, n, n + 1, 2 * n + 3])
+        kind = r.choice(["tight", "wide", "points", "mixed"])
+        box = []
+        for _ in range(n):
+            if kind == "points" or (kind == "mixed" and r.random() < 0.5):
+                a = r.randint(lo, lo + span)
+                box.append((a, a))
+            elif kind == "tight":
+                a = r.randint(lo, lo + span)
+                box.append((a, min(lo + span, a + r.randint(0, 2))))
+            else:
+                box.append((lo, lo + span))
+        return alg, [], tuple(box)
+    if alg == "gcc":
+        m = r.choice([1, 2, 3, 5, 8, 12])
+        v0 = r.choice([-7, 0, 1, 100])
+        ls = [r.choice([0, 0, 0, 1, 2]) for _ in range(m)]
+        us = [l + r.choice([0, 0, 1, 2, n]) for l in ls]
+        box = []
+        for _ in range(n):
+            a = r.randint(v0, v0 + m - 1)
+            box.append((a, min(v0 + m - 1, a + r.choice([0, 0, 1, m]))))
+        return alg, [v0] + ls + us, tuple(box)
+    if alg in ("no_sub_cycle", "scc"):
+        box = []
+        for i in range(n):
+            a = r.randint(0, n - 1)
+            box.append((a, a) if r.random() < 0.5 else (a, min(n - 1, a + r.choice([1, 2, n]))))
+        return alg, [], tuple(box)
+    if alg == "element_iv":
+        m = r.choice([1, 2, 7, 40])
+        return alg, [r.randint(-9, 9) for _ in range(m)], ((r.randint(-5, 2), r.randint(2, m + 5)), (-10, 10))
+    if alg == "element_liv":
+        n = max(n, 3)
+        return alg, [], tuple((r.randint(-3, 0), r.randint(0, 3)) for _ in range(n - 2)) + ((r.randint(-4, 1), r.randint(1, n + 4)), (-3, 3))
+    if alg == "element_lic":
+        n = max(n, 2)
+        return alg, [r.randint(-2, 2)], tuple((r.randint(-3, 0), r.randint(0, 3)) for _ in range(n - 1)) + ((r.randint(-4, 1), r.randint(1, n + 4)),)
+    if alg == "relation":
+        n = min(n, 8)
+        rows = r.choice([1, 3, 50])
+        return alg, [r.randint(-2, 2) for _ in range(n * rows)], tuple((-2, 2) for _ in range(n))
+    if alg == "lexicographic_leq":
+        m = max(1, n // 2)
+        return alg, [], tuple(rnd_iv(r, -1, 2, r.choice([0, 1, 3])) for _ in range(2 * m))
+    if alg == "count_eq":
+        n = max(n, 2)
+        return alg, [r.randint(-1, 1)], tuple(rnd_iv(r, -2, 2, 2) for _ in range(n - 1)) + ((r.randint(-2, 3), r.randint(3, n + 2)),)
+    if alg == "exactly_eq":
+        return alg, [r.randint(-1, 1), r.randint(-1, n + 1)], tuple(rnd_iv(r, -2, 2, 2) for _ in range(n))
+    if alg in ("max_eq", "min_eq"):
+        n = max(n, 2)
+        return alg, [], tuple(rnd_iv(r, -20, 20, r.choice([0, 3, 40])) for _ in range(n))
+    if alg == "affine_eq":
+        cs = [r.randint(-9, 9) for _ in range(n)]
+        return alg, cs + [r.randint(-50, 50)], tuple(rnd_iv(r, -9, 9, r.choice([0, 2, 18])) for _ in range(n))
+    raise ValueError(alg)
